@@ -292,6 +292,18 @@ class Effects:
 
     def _call_tags(self, func, e, env):
         calls = self.calls
+        if isinstance(e.func, ast.Name) and e.func.id == "getattr" and e.args and "getattr" not in env and not isinstance(
+                self.prog.resolve_name(func.mod, "getattr", func), (Func, Cls, tuple)):
+            # getattr(obj, name[, default]) with a computed name: some attribute of obj -- a sub-object of whatever obj is
+            if len(e.args) >= 2 and isinstance(e.args[1], ast.Constant):
+                fake = ast.Attribute(value=e.args[0], attr=e.args[1].value, ctx=ast.Load())
+                out = set(self.expr_tags(func, fake, env))
+            else:
+                bt = calls.type_of(func, e.args[0])
+                out = {("FLD", bt, "*")} if bt and not bt.startswith("cls:") else set(self._elements(self.expr_tags(func, e.args[0], env)))
+            for a in e.args[2:]:
+                out |= self.expr_tags(func, a, env)
+            return out
         targets = calls.callee(func, e)
         out = set()
         args = list(e.args) + [kw.value for kw in e.keywords]
